@@ -17,7 +17,7 @@ from .values import *  # noqa: F401,F403
 from .values import term_of
 
 
-SPEC_FORMS = {"forall", "exists", "forall_str", "forall_int", "old", "implies", "iff", "forall_in", "exists_in", "ite", "fresh_clock", "typeis", "flag"}
+SPEC_FORMS = {"local", "exists_int", "snap", "forall", "exists", "forall_str", "forall_int", "old", "implies", "iff", "forall_in", "exists_in", "ite", "fresh_clock", "typeis", "flag"}
 
 
 class GhostNS(V):
@@ -122,6 +122,17 @@ class ContractInterp(Interp):
             if n == "forall_in":
                 return VBool(z3.And(*out) if out else z3.BoolVal(True))
             return VBool(z3.Or(*out) if out else z3.BoolVal(False))
+        if n == "snap":
+            v = self.eval(e.args[0], fr)
+            if isinstance(v, (VSeq, VSet, VMap, VList, VDict)):
+                import copy as _copy
+                v2 = _copy.copy(v)
+                v2.ref = self.st.new_ref()
+                for sub in ("seq", "set", "dom", "val", "items"):
+                    if (v.ref, sub) in self.st.heap:
+                        self.st.heap[(v2.ref, sub)] = self.st.heap[(v.ref, sub)]
+                return v2
+            return v
         if n in ("forall", "exists"):
             # forall(x, "Type", body): quantification over a first-order sort (objects, str, int, datetime, ...)
             var = e.args[0].id
@@ -133,6 +144,18 @@ class ContractInterp(Interp):
             f2.vars[var] = VObj(t[1], x) if t[0] in ("obj", "symobj") else wrap(t, x)
             body = _b(self.truth(self.eval(e.args[2], f2)))
             return VBool(z3.ForAll([x], body) if n == "forall" else z3.Exists([x], body))
+        if n == "local":
+            # local('name', default): a local variable of the function under verification at this program point
+            nm = ast.literal_eval(e.args[0])
+            f = self.cur_frame
+            v = f.lookup(nm) if f is not None else None
+            return v if v is not None else self.eval(e.args[1], fr)
+        if n == "exists_int":
+            var = e.args[0].id
+            x = z3.Const(self.st.fresh_name(var), z3.IntSort())
+            f2 = Frame(fr.finfo, fr, cls=fr.cls)
+            f2.vars[var] = VInt(x)
+            return VBool(z3.Exists([x], _b(self.truth(self.eval(e.args[1], f2)))))
         if n in ("forall_str", "forall_int"):
             var = e.args[0].id
             srt = z3.StringSort() if n == "forall_str" else z3.IntSort()
@@ -349,7 +372,9 @@ class ContractInterp(Interp):
     def apply_contract(self, c: Contract, am: dict, node, awaited=False) -> V:
         st = self.st
         sname = self.short(c)
-        if c.assumed:
+        if c.bounded:
+            st.assumed_used.add(f"contract checked only by a bounded stand-in (not proved): {c.fn}")
+        elif c.assumed:
             st.assumed_used.add(f"assumed contract: {c.fn}" + (f" ({c.note})" if c.note else ""))
         else:
             st.notes.append(f"callee by contract: {c.fn}")
